@@ -62,6 +62,24 @@ static void sern_lines(const cbor_item_t* item, size_t size, const unsigned char
     unsigned char* e = malloc(n ? n : 1);
     size_t ret2 = cbor_serialize(item, n ? e : e + 1, n);
     int same = ret > 0 && ret <= n && ref ? memcmp(f + frame, ref, ret) == 0 : 1;
+    /* (c) the public per-type entry point for this item's type: same contract, same bytes */
+    {
+      unsigned char* t = malloc(n ? n : 1);
+      unsigned char* tb = n ? t : t + 1;
+      size_t r3 = 0;
+      switch (cbor_typeof(item)) {
+        case CBOR_TYPE_UINT: r3 = cbor_serialize_uint(item, tb, n); break;
+        case CBOR_TYPE_NEGINT: r3 = cbor_serialize_negint(item, tb, n); break;
+        case CBOR_TYPE_BYTESTRING: r3 = cbor_serialize_bytestring(item, tb, n); break;
+        case CBOR_TYPE_STRING: r3 = cbor_serialize_string(item, tb, n); break;
+        case CBOR_TYPE_ARRAY: r3 = cbor_serialize_array(item, tb, n); break;
+        case CBOR_TYPE_MAP: r3 = cbor_serialize_map(item, tb, n); break;
+        case CBOR_TYPE_TAG: r3 = cbor_serialize_tag(item, tb, n); break;
+        default: r3 = cbor_serialize_float_ctrl(item, tb, n); break;
+      }
+      if (r3 != ret2 || (r3 > 0 && r3 <= n && memcmp(tb, n ? e : e + 1, r3) != 0)) ret2 = r3 == ret2 ? ret2 + 1 : r3; /* any disagreement surfaces in ret2 */
+      free(t);
+    }
     fprintf(vh_out, "{\"e\":\"sern\",\"n\":%zu,\"ret\":%zu,\"ret2\":%zu,\"over\":%s", n, ret, ret2, over ? "true" : "false");
     if (size <= 48 && ret > 0 && ret <= n) vh_kbytes("out", f + frame, ret);
     else fprintf(vh_out, ",\"out\":[]");
